@@ -135,10 +135,21 @@ def cli_case(case, env):
         env.nontrivial((case["seed"], pat, tuple(flags)))
 
     has_max = "-m" in flags
+    max_n = int(flags[flags.index("-m") + 1]) if has_max else None
+
+    def known_shape():
+        # the recorded finding has a direction: the summary printer (-c,
+        # --count-matches, --stats) stops as soon as the matches it has
+        # counted reach N (a block of adjacent matching lines is counted as a
+        # whole), the standard and JSON printers after N such blocks: per
+        # file the summary number is never above what JSON reports, and where
+        # the two differ the summary has reached the limit
+        return all(j_sub.get(p, 0) >= n_cm.get(p, 0) and
+                   (j_sub.get(p, 0) == n_cm.get(p, 0) or n_cm.get(p, 0) >= max_n) for p in paths)
 
     def bad(rel, what):
         if multiline and has_max and rel in ("count-matches-vs-json-submatches", "multiline-count",
-                                             "count-vs-json-matches", "stats-matches"):
+                                             "count-vs-json-matches", "stats-matches") and known_shape():
             # known finding: what -m N limits under -U differs per mode
             env.viol("C10:multiline-max-count-modes-disagree",
                      "pattern %r flags %s: %s" % (pat, " ".join(flags), what), rp)
